@@ -100,6 +100,12 @@ Definition expand_states (t : table) (snip : list tline) : list line :=
 Definition gen_from (tmpl : list tline) (t : table) : list line :=
   pair_expand (is_begin 1) (is_end 1) (inst0 t) (expand_states t) tmpl false [].
 
+(* the name domain of the Python machine: no state / event / action / guard may be one of the bare module-level names the
+   template itself binds or relies on (Gen/PyTmpl.v: py_reserved_names, recomputed from the template on every run; the
+   names <Name>StateId / <Name>StateMachine formed from the machine's own name are listed there as suffixes) *)
+Definition py_names_ok (t : table) : bool :=
+  forallb (fun n => negb (mem n py_reserved_names)) (states t ++ events t ++ actions t ++ guards t)%list.
+
 Definition py_template : list tline := (py_init ++ py_process)%list.
 Definition gen_py (t : table) : list line := gen_from py_template t.
 
